@@ -101,7 +101,24 @@ def _c18_rule(op, args, impl):
     return ";" in a and "," in a and any(ch in a for ch in "123456789")
 
 
+def _c20_rule(op, args, impl):
+    a = args[0]
+    return (";" in a) or a.count(",") >= 2
+
+
 INFO = {
+    "C20": {
+        "rule": "lll on integer bases of dimension 2..8: plain random, nearly dependent rows, already reduced, unimodular images of reduced bases, knapsack-type, identity (entries up to 10^4 for the ill-conditioned families, larger for well-conditioned ones in the thorough tier; only non-singular bases, checked with an exact determinant); find_short_vectors / find_value on Gram matrices B*B^T of dimension <= 5 with bounds c = k + 1/2; find_muk on cyclotomic fields Phi_3..Phi_30, imaginary and real quadratic, cubic, quartic, quintic..octic fields with a real embedding and some totally complex fields, each repeated over the (hooked, seeded) random Newton starts. Non-trivial: a matrix argument or a polynomial of degree >= 2; distinct = distinct (op,args).",
+        "rulefn": _c20_rule,
+        "trusted": ["floating point (f64) is NOT modelled: lllRat is an exact-rational replay of the control flow, compared with the implementation only on runs where no decision is within 1e-6 (scaled for ill-conditioning) of its threshold; the harness prints f64 outputs as integers only when they are exact integers below 2^53",
+                    "closed forms for the number of roots of unity: re-verified in Lean for cyclotomic (f = Phi_n by polynomial products), real-root witnesses and imaginary quadratic fields; a few totally complex fields are literature values"],
+        "gaps": ["B' LLL-reduced (delta = 3/4, eta = 1/2 up to 1e-6): not implied by any theorem about f64; certified on every explored output by exact rational Gram-Schmidt (Spec.Lll.isReduced)",
+                 "termination of lll; completeness and exactness of find_short_vectors (certified per case against brute force in a provably complete box |x_i| <= floor(sqrt(c*(Q^-1)_ii)), exact rational arithmetic); the unit count of find_muk (certified against closed forms over repeated random starts); Newton convergence from random starts",
+                 "for nearly dependent bases with entries above ~3*10^4 the f64 implementation returns bases that are not reduced (mu off by whole units): outside the explored domain of the property (entries up to 10^4); H and B' = H*B still hold there"],
+        "assumptions": ["non-singular integer-valued bases with entries small enough for exact f64 representation; positive-definite Gram matrices"],
+        "level_text": "Theorem for every sequence of the operations lll performs on (basis, H): H stays unimodular and the basis equals H*B0 whatever multipliers and swaps the floating-point part chooses. Everything that depends on f64 (reducedness, enumeration, unit count) is certified per explored case by exact rational checkers applied to the implementation's real outputs; the exact-rational replay lllRat is compared textually on non-ambiguous runs. Labelled partial.",
+        "level_note": "Trusted: Lean kernel + 3 standard axioms; Mathlib Matrix/det; exactness of integer-valued f64 below 2^53; correspondence coverage. Partial: f64 behaviour is outside any theorem.",
+    },
     "C18": {
         "rule": "every matrix over {-1,0,1} of the small shapes: 1x1 (entries -2..2), 2x2, 3x3 through determinant, inv and solve_linear_system (2x2 with every right-hand side over {-1,0,1}); iim for M 1x1..2x3 with every V of one row (and 1x2 with two rows), sampled 3x2, 2x3 with two rows, 3x3, 2x4 (thorough: denser); supplement_basis for 1x1..3x3, 2x4, 1x5, sampled 3x4; image_mod_p for all 0/1 matrices up to 4x3/3x4 over F_2, all residue matrices up to 3x3 over F_3, 2x2 and sampled 3x2 over F_5, {-1,0,1} 3x3 for p = 5, 7; mul_inv_from_right_exact for all pairs of 2x2 matrices over {-1,0,1} and 1x1 in [-6,6]. Then seeded random: square matrices up to 7x7 with fractions (numerators up to 2^40, thorough 2^90; denominators up to 30): plain, forced rank deficiency (rows = rational combinations of r others, shuffled), zero row/column, sparse, staircase with the pivot of an early row in a late column, signed permutation-like matrices; right-hand sides random or in the row space; n x m (n <= 5, m <= 7, mostly m > n) for iim and supplement_basis in the same styles and with the columns reversed, V rows inside the span, perturbed by one coordinate, or random; F_p matrices up to 7x7 for p in {2,3,5,7,101} with dependent, repeated and proportional rows, balanced representatives, and unreduced entries (model comparison only); exact right division on A = C*B, on A = C*B + E_rs, on random A, with triangular and singular B, up to 6x6 with 40-bit entries. Shapes outside the statement (non-square, width mismatch, empty) and moduli that are not prime (0, 1, 4, 6, 9, -5) are run for the panic/truncation behaviour of the model only. Non-trivial: first argument has >= 2 rows, >= 2 columns and a non-zero entry; distinct = distinct (op,args).",
         "rulefn": _c18_rule,
